@@ -119,9 +119,9 @@ func insnCase(mode int, stmt string, w x86ref.Want, f map[string]string, extra f
 	f["mode"] = fmt.Sprint(mode)
 	src := bitsHeader(mode) + "\t" + stmt + "\n"
 	return &core.Case{
-		Key:  fmt.Sprintf("BITS %d|%s", mode, stmt),
-		Feat: f,
-		Srcs: []string{src, bitsHeader(mode)},
+		Key:   fmt.Sprintf("BITS %d|%s", mode, stmt),
+		Feat:  f,
+		Srcs:  []string{src, bitsHeader(mode)},
 		Judge: func(rs []*core.Result) core.Verdict { return judgeInsn(rs, mode, w, extra) },
 	}
 }
